@@ -179,6 +179,38 @@ class Engine(object):
             raise Inconclusive('solver unknown: %s' % self.solver.reason_unknown())
         return m
 
+    def margin_terms(self, eps=Fraction(1, 1024)):
+        """every comparison between reals on the current path, strengthened by a margin: a model of these
+        is not at an exact tie of two instants, so float arithmetic decides the same way"""
+        out = []
+        e = tm.const(eps, tm.REAL)
+
+        def strong(x, y):      # x < y or x <= y   ->   x + eps <= y
+            return tm.le(tm.add(x, e), y)
+        for t in self.pc:
+            neg = False
+            u = t
+            if u.op == 'not':
+                neg = True
+                u = u.a[0]
+            if u.op in ('lt', 'le') and u.a[0].s == tm.REAL:
+                x, y = u.a
+                out.append(strong(y, x) if neg else strong(x, y))
+        return out
+
+    def margin_model(self, extra=None):
+        """model of the path condition (and extra) away from ties, or None"""
+        ms = self.margin_terms()
+        if not ms:
+            return None
+        t = tm.TRUE if extra is None else extra
+        for m in ms:
+            t = tm.and_(t, m)
+        try:
+            return self._query(t)
+        except Inconclusive:
+            return None
+
     def ev(self, t):
         return tm.evaluate(t, self.model, self.memo)
 
@@ -373,7 +405,7 @@ class Engine(object):
                 self.discharged += 1
                 st[1] += 1
                 return True
-            self._violate(label, detail, self.model, sig)
+            self._violate(label, detail, self.margin_model() or self.model, sig)
             return False
         if t.op == 'const':
             return self.check(t.a[0], label, detail, sig)
@@ -386,6 +418,10 @@ class Engine(object):
             m = self._query(tm.not_(t))
         else:
             m = self.model
+        if m is not None:
+            mm = self.margin_model(tm.not_(t))
+            if mm is not None:
+                m = mm
         if m is None:
             self.discharged += 1
             st[1] += 1
